@@ -127,7 +127,7 @@ func (s *session) binary() binary {
 	return binary{
 		desc: f.String(), target: f.target(), nEntries: f.entries,
 		build: func(rl *runLog, cancel func()) *migration.Registry {
-			return prodRegistry(f, rl, &toy{id: idxAux, units: 1, cancel: cancel, executed: map[outcome]int{}})
+			return prodRegistry(s.pc.e, f, rl, &toy{id: idxAux, units: 1, cancel: cancel, executed: map[outcome]int{}})
 		},
 	}
 }
